@@ -8,7 +8,9 @@ import (
 	"verifharness/internal/vkit"
 )
 
-func main() { vkit.Main("C19", []string{"Gen.R1", "Gen.S1", "Gen.R2", "Gen.S2Rect", "Gen.S2Cap"}, runC19) }
+func main() {
+	vkit.Main("C19", []string{"Gen.R1", "Gen.S1", "Gen.R2", "Gen.S2Rect", "Gen.S2Cap"}, runC19)
+}
 
 // floats as strings: JSON has no Inf/NaN
 func fs(xs ...float64) []string {
@@ -43,6 +45,7 @@ func runC19(c *vkit.Collector, rng *vkit.Rng, budget int) {
 	runC19r2(c, rng, budget)
 	runC19s2rect(c, rng, budget)
 	runC19cap(c, rng, budget)
+	runC19capSpecial(c, rng, budget)
 }
 
 func runC19r1(c *vkit.Collector, rng *vkit.Rng, budget int) {
@@ -101,6 +104,10 @@ func runC19r1(c *vkit.Collector, rng *vkit.Rng, budget int) {
 			ma, mb := r1Mem(a, p), r1Mem(b, p)
 			rep := map[string]interface{}{"type": "r1", "a": fs(a.Lo, a.Hi), "b": fs(b.Lo, b.Hi), "p": fs(p),
 				"bits": []string{fmt.Sprintf("%x", math.Float64bits(a.Lo)), fmt.Sprintf("%x", math.Float64bits(a.Hi)), fmt.Sprintf("%x", math.Float64bits(b.Lo)), fmt.Sprintf("%x", math.Float64bits(b.Hi)), fmt.Sprintf("%x", math.Float64bits(p))}}
+			// an empty operand (any Lo > Hi) has no member: the union is the other operand as a point set
+			if (r1Empty(b) && r1Mem(u, p) != ma) || (r1Empty(a) && r1Mem(u, p) != mb) {
+				c.Violate("r1.Union.empty-operand", "union with an empty interval is not the other operand", rep)
+			}
 			if (ma || mb) && !r1Mem(u, p) {
 				c.Violate("r1.Union", "union misses a point of an operand", rep)
 			}
@@ -150,6 +157,9 @@ func runC19r1(c *vkit.Collector, rng *vkit.Rng, budget int) {
 		if a.Intersects(b) != anyCommon && !(a.IsEmpty() || b.IsEmpty()) {
 			// endpoints of both intervals are among the probes, so a common point, if any, was probed
 			c.Violate("r1.Intersects", "Intersects disagrees with existence of a common point", map[string]interface{}{"type": "r1", "a": fs(a.Lo, a.Hi), "b": fs(b.Lo, b.Hi)})
+		}
+		if r1Empty(b) && !a.ContainsInterval(b) {
+			c.Violate("r1.ContainsInterval.empty-arg", "an interval does not contain an empty interval", map[string]interface{}{"type": "r1", "a": fs(a.Lo, a.Hi), "b": fs(b.Lo, b.Hi)})
 		}
 		if (a.IsEmpty() || b.IsEmpty()) && a.Intersects(b) {
 			c.Violate("r1.Intersects", "Intersects true with an empty operand", map[string]interface{}{"type": "r1", "a": fs(a.Lo, a.Hi), "b": fs(b.Lo, b.Hi)})
